@@ -130,6 +130,9 @@ def offset_invariance(F, R, tier='quick'):
                     break
             if reg['problems'] and not bad:
                 bad.append('N=%d: %s' % (N, reg['problems'][0]))
+            structural = [p_ for p_ in (probs or []) if 'depends on the data' in p_ or 'structurally different' in p_]
+            if structural and not bad:
+                bad.append('N=%d: %s' % (N, structural[0]))
         R.ob('D-shift', n, not bad and cnt > 0, 'adding a constant to every input changes no reported value and no branch (%d outputs from the initial state, N = %d..%d)' % (cnt, Ns[0], Ns[-1])
              if not bad and cnt > 0 else (bad[0] if bad else 'nothing analysed'), v.file)
 
@@ -281,6 +284,31 @@ def ema_seed_and_alpha(F, R):
             alpha_ok = False
             why = 'Ema::new(%d): weight of the newest input is %s, expected 2/(N+1)' % (N, o.get('u%d' % (N + 2)) if isinstance(o, dict) else o)
     R.ob('B2-ema', 'Ema:alpha', alpha_ok, 'Ema::new uses alpha = 2, so w = 2/(N+1) ∈ (0, 1] for N >= 1' if alpha_ok else why, v.file)
+    # two regimes only, for every N: the first delivered value seeds the state, every later one applies ONE recursion term
+    # (a third, integer-gated regime -- a warm-up for some window lengths or some counts -- is a different filter)
+    from .terms import cases as _cases
+    regimes_ok = True
+    why_reg = ''
+    for cell, tt in m.up_fields.items():
+        if cell in ('n_observed_values',) or tt is None:
+            continue
+        try:
+            cs_ = [(c_, l_) for c_, l_ in _cases(tt)]
+        except OverflowError:
+            regimes_ok, why_reg = False, 'too many cases in %s' % cell
+            continue
+        from .terms import nondelivering as _nd
+        leaves = []
+        for c_, l_ in cs_:
+            if _nd(c_) or l_ == ('in', cell):
+                continue
+            if l_ not in leaves:
+                leaves.append(l_)
+        floaty = [l_ for l_ in leaves if any(x[0] == 'child' for x in subterms(l_))]
+        if len(floaty) > 2 or (len(floaty) == 2 and not any(l_[0] == 'child' for l_ in floaty)):
+            regimes_ok = False
+            why_reg = 'cell %s takes %d different data-dependent forms depending on counters/parameters: %s' % (cell, len(floaty), [tstr(l_)[:50] for l_ in floaty][:3])
+    R.ob('B2-ema', 'Ema:regimes', regimes_ok, 'exactly two regimes for every window length: seed with the first value, then one recursion' if regimes_ok else why_reg, v.file)
     seed_ok = False
     for cell, tt in m.up_fields.items():
         for x in subterms(tt):
